@@ -93,14 +93,19 @@ fn judge(runner: &mut Runner, e: &Expect, extra: &(dyn Fn(&Expect, &Response) ->
     let (oa, pa) = run(runner);
     let (_ob, pb) = run(runner);
     stats.executions += 2;
-    if pa != pb {
+    // (printed addresses differ between runs: compare the normalised descriptions)
+    if pa.as_deref().map(normalise) != pb.as_deref().map(normalise) {
         stats.nondeterministic += 1;
-        eprintln!("NONDETERMINISTIC: {:?} vs {:?}\n{:?}", pa, pb, e.request.snippets);
+        if stats.nondeterministic <= 2 {
+            eprintln!("NONDETERMINISTIC: {:?} vs {:?}\n{:?}", pa, pb, e.request.snippets);
+        }
         return;
     }
     let Some(problem) = pa else {
         stats.nondeterministic += 1;
-        eprintln!("NONDETERMINISTIC (first run only): {:?}\n{:?}", first, e.request.snippets);
+        if stats.nondeterministic <= 2 {
+            eprintln!("NONDETERMINISTIC (first run only): {:?}\n{:?}", first, e.request.snippets);
+        }
         return;
     };
     if let Some(f) = attribute(e, &problem) {
